@@ -156,14 +156,17 @@ def run(tier, seed):
     env_real = realcode.eval_formulas(['=A%d' % (i + 1) for i in range(len(CELLS))], values)
     for i, (a, b) in enumerate(zip(env_real, ENV)):
         if a != b:
-            raise RuntimeError('environment cell %d evaluates to %s, harness assumes %s' % (i, a, b))
+            # a referenced cell evaluates to something else than assumed when the generator was written (e.g. a division by zero that yields an error VALUE instead of
+            # failing): the model is told what the cell really evaluates to; what the property fixes is judged on the formulas built over these cells
+            chk.count('environment-differs:A%d' % (i + 1))
+    env_now = list(env_real)
     cases = []
     B = 400
     for k in range(0, len(items), B):
         chunk = items[k:k + B]
         outs = realcode.eval_formulas(['=' + t for t, _ in chunk], values)
         for (txt, toks), got in zip(chunk, outs):
-            req = 'br %d %s %s' % (len(ENV), ' '.join(ENV), ' '.join(toks))
+            req = 'br %d %s %s' % (len(env_now), ' '.join(env_now), ' '.join(toks))
             cases.append((req, got, {'formula': '=' + txt}))
             for fn in ('IF(', 'IFS(', 'IFERROR('):
                 if fn in txt:
